@@ -213,6 +213,9 @@ class mem_cache : public base_cache {
 	size_t triggers_count;
 	int refs;
 	uint64_t generation;
+#ifdef CPPCMS_VERIF
+	unsigned long verif_memory_evictions,verif_memory_clears; // entries dropped because shared memory was low / clear() after bad_alloc
+#endif
 
 	string_type to_int(std::string const &other)
 	{
@@ -247,6 +250,9 @@ public:
 		refs(0),
 		generation(0)
 	{
+#ifdef CPPCMS_VERIF
+		verif_memory_evictions = verif_memory_clears = 0;
+#endif
 		nl_clear();
 	}
 	~mem_cache()
@@ -344,6 +350,10 @@ public:
 
 		while(size > 0 && (not_enough_memory() || (size>=limit && limit>0)))
 		{
+#ifdef CPPCMS_VERIF
+			if(not_enough_memory())
+				verif_memory_evictions++;
+#endif
 			if(!timeout.empty() && timeout.begin()->first<now) {
 				main=timeout.begin()->second;
 			}
@@ -425,6 +435,9 @@ public:
 		}
 		catch(std::bad_alloc const &e)
 		{
+#ifdef CPPCMS_VERIF
+			verif_memory_clears++;
+#endif
 			nl_clear();
 		}
 	}
@@ -459,6 +472,8 @@ public:
 		out.triggers_count = triggers_count;
 		out.limit = limit;
 		out.process_shared = Setup::process_shared;
+		out.memory_evictions = verif_memory_evictions;
+		out.memory_clears = verif_memory_clears;
 		if(primary.size()!=size) out.inconsistency += "primary.size!=size;";
 		if(lru.size()!=size) out.inconsistency += "lru.size!=size;";
 		if(timeout.size()!=size) out.inconsistency += "timeout.size!=size;";
